@@ -137,7 +137,7 @@ impl TracingLayers {
                 // the total number of files; should be greater than uncompressed
                 let max_log_files = if let Some(max_compressed_log_files) = max_compressed_log_files
                 {
-                    max_compressed_log_files + max_uncompressed_log_files
+                    max_compressed_log_files.saturating_add(max_uncompressed_log_files)
                 } else {
                     std::cmp::max(max_uncompressed_log_files, MAX_LOG_FILES)
                 };
